@@ -307,6 +307,7 @@ type job struct {
 	Env   map[string]string `json:"env,omitempty"`
 	Cwd   string            `json:"cwd,omitempty"`
 	Reps  int               `json:"reps,omitempty"`
+	Reuse bool              `json:"reuse,omitempty"`
 }
 
 type response struct {
@@ -503,6 +504,20 @@ func (s *Server) App(args []string, env map[string]string, reps int) []Result {
 		return []Result{{Panic: "verif: bad job: " + resp.Bad, Exit: -1, Count: 1}}
 	}
 	return resp.Runs
+}
+
+// AppReused runs the production app once in-process, on the one App value the server keeps for such jobs (a
+// caller that builds the application once and calls Run for every request). No environment: the CLI library
+// itself keeps values taken from variables in the flag objects of an App value.
+func (s *Server) AppReused(args []string) Result {
+	resp, died := s.roundTrip(job{Args: args, Cwd: s.Dir, Reps: 1, Reuse: true}, 120*time.Second)
+	if died != "" {
+		return Result{Panic: died, Exit: -1}
+	}
+	if resp.Bad != "" || len(resp.Runs) == 0 {
+		return Result{Panic: "verif: bad job: " + resp.Bad, Exit: -1}
+	}
+	return resp.Runs[0]
 }
 
 // App1 runs the production app once in-process.
